@@ -48,7 +48,8 @@ def run(seed):
             if r.returncode == 2: res[p]["stderr"] = r.stderr[-300:]
         for fn in os.listdir(os.path.join(ROOT, "build")):
             if fn.endswith(tag) or fn.endswith(tag + ".json") or fn.endswith(tag + ".log"):
-                os.remove(os.path.join(ROOT, "build", fn))
+                fp = os.path.join(ROOT, "build", fn)
+                shutil.rmtree(fp, ignore_errors=True) if os.path.isdir(fp) else os.remove(fp)
         meta.setdefault("detection", {}).update(res)
         json.dump(meta, open(os.path.join(sd, "meta.json"), "w"), indent=1)
         return seed, res
